@@ -87,12 +87,12 @@ def _clip(v, lo, hi):
     return smax(lo, smin(v, hi))
 
 
-def h_views(ctx, nops, wlens, menus=None):
+def h_views(ctx, nops, wlens, menus=None, maxlen=None):
     from rig.machine_control.machine_controller import (
         MemoryIO, SlicedMemoryIO, TruncationWarning)
 
     base = ctx.int("base", 0)
-    length = ctx.int("len", 0)
+    length = ctx.int("len", 0, maxlen)
     mc = StubController()
     root = MemoryIO(mc, 1, 2, base, base + length)
     views = [(root, ModelView(base, base + length))]
@@ -196,6 +196,12 @@ def h_views(ctx, nops, wlens, menus=None):
                 # A file: position = length + offset (seek(-1, 2) is the
                 # last byte, as the method's own docstring says).
                 model.pos = ln + arg
+                # the known finding is exactly "len - n instead of len + n":
+                # any other position is a violation of its own
+                ctx.prove(sor(view.tell() == ln + arg,
+                              view.tell() == ln - arg),
+                          "view-seek-from-end-position",
+                          (arg, view.tell(), ln))
                 ok = ctx.prove(view.tell() == model.pos,
                                "C13:seek(n,2):position=len-n",
                                (arg, view.tell(), ln))
@@ -339,6 +345,14 @@ def units(tier, seed):
         menus=(("slice",), ("close", "seek0", "write"),
                ("readall", "write", "tell"))),
         split=4, witnesses=("access", "read-data", "write-data", "dead-op")))
+    # short views (length 0..5): code that needs len() as a real int (which
+    # the unbounded units can only answer by giving up) is explored here
+    us.append(Unit("ops=2 short views", h_views,
+                   dict(nops=2, wlens=(1, 3), maxlen=5), split=4,
+                   witnesses=("access", "read-data", "write-data", "sliced",
+                              "dead-op", "freed")))
+    for u in us:
+        u.max_concretise = 64
     if tier == "thorough":
         us.append(Unit("ops=3", h_views, dict(nops=3, wlens=(1, 3)), split=5))
         us.append(Unit("ops=2 long writes", h_views,
